@@ -270,6 +270,12 @@ func typeIn(oid uint32, raw []byte, binary bool) ([]byte, error) {
 	if oid == OidBytea && !binary {
 		return byteaIn(raw)
 	}
+	if oid == OidInt4 && binary { // int4 binary input: 4 bytes big endian; the store keeps the decimal text
+		if len(raw) != 4 {
+			return nil, errors.New("incorrect binary data format for type integer")
+		}
+		return []byte(strconv.Itoa(int(int32(uint32(raw[0])<<24 | uint32(raw[1])<<16 | uint32(raw[2])<<8 | uint32(raw[3]))))), nil
+	}
 	return append([]byte{}, raw...), nil
 }
 func typeOut(oid uint32, stored []byte, binary bool) []byte {
